@@ -224,7 +224,7 @@ func (m *Machine) check(label string, c *Term) {
 func (m *Machine) recordViolation(kind, label, msg string, model Model) {
 	v := &Violation{Kind: kind, Label: label, Msg: msg, Site: m.site(), Model: model,
 		Trace: append([]int64{}, m.trace...), Nondets: append([]NondetRec{}, m.nondets...),
-		Events: append([]Event{}, m.events...)}
+		Events: append([]Event{}, m.events...), Budget: m.allocBudget}
 	m.viols = append(m.viols, v)
 }
 
@@ -320,6 +320,9 @@ func (m *Machine) finishPath(res *PathResult, wantWitness bool) {
 	case "fault", "unwind", "steps":
 		// a run-time error of the program under test on a feasible path
 		model, r := m.pathModel()
+		if r == Sat && pe.Kind != "fault" {
+			model = m.amplify(model)
+		}
 		switch r {
 		case Sat:
 			kind := pe.Kind
@@ -490,4 +493,27 @@ func (P *Program) Explore(h *Harness, workers int, maxPaths int, nWitness int) *
 	wg.Wait()
 	hr.Wall = time.Since(t0)
 	return hr
+}
+
+// amplify greedily pushes the byte-sized inputs of a non-terminating path to
+// their largest feasible values (0xff, else 0x7f), so that input-controlled
+// loop counts become large enough for the native replay to observe the hang.
+func (m *Machine) amplify(model Model) Model {
+	m.syncSolver()
+	var extra []*Term
+	for _, nd := range m.nondets {
+		if nd.Var == nil || nd.W != 8 {
+			continue
+		}
+		for _, v := range []uint64{0xff, 0x7f} {
+			c := m.st.Eq(nd.Var, m.st.Const(8, v))
+			r, mod := m.sol.Check(append(append([]*Term{}, extra...), c), true, m.st.Vars)
+			if r == Sat {
+				extra = append(extra, c)
+				model = mod
+				break
+			}
+		}
+	}
+	return model
 }
